@@ -5,6 +5,7 @@ package main
 import (
 	"fmt"
 	"go/ast"
+	"go/token"
 	"go/types"
 	"sort"
 	"strings"
@@ -299,6 +300,22 @@ func propC08(p *Prog, r *Report) {
 		r.Check(common, "C08.c", cons, g.pos, "horizon computation and draw-and-register share a lock class",
 			fmt.Sprintf("the collector computes its horizon (Oldest / fresh draw) under %s and Begin draws and registers under %s: no common lock, so the horizon can be newer than a transaction that has drawn its point but is not registered yet, and the version it must read is removed", heldString(ghs), heldString(bhs)))
 	}
+	// S3 (seeded C08-J): the registry answers Oldest with the first transaction registered, not with the smallest
+	// point, so beginners must register in the order of their points: draw-and-register is exclusive among
+	// beginners too (a lock held in write mode), not only against the collector.
+	if old := p.Func(kTxRepoOldest); old != nil && old.Decl.Body != nil && !comparesSeq(old) {
+		for _, b := range begin {
+			bhs := regionHeld(b.evs, []string{kSeqNext, kTxRepoStore})
+			excl := false
+			for _, h := range bhs {
+				if h.Mode == "W" {
+					excl = true
+				}
+			}
+			r.Check(excl, "C08.c", "seq-exclusion/transaction.Begin#S3", b.pos, "draw-and-register is exclusive among beginning transactions (registration order = point order, which is what Oldest relies on)",
+				fmt.Sprintf("Begin draws its snapshot point and registers holding only %s: two beginning transactions can register in the opposite order of their points, the registry's Oldest answers with the first one registered, and the collector's horizon exceeds the point of a transaction that is open: the version it reads is removed", heldString(bhs)))
+		}
+	}
 	if len(begin) == 0 || len(gc) == 0 {
 		r.Undecided("C08.c", "seq-exclusion", "", "snapshot-point or horizon draw not found")
 	}
@@ -430,4 +447,30 @@ func commitStampDraws(p *Prog, fi *FuncInfo) (map[*ast.CallExpr]bool, map[*ast.C
 		}
 	}
 	return res, loop
+}
+
+// comparesSeq: the function compares snapshot points (a Seq field or a Before / After method of one): it orders the
+// transactions itself instead of relying on the order they were registered in.
+func comparesSeq(fi *FuncInfo) bool {
+	found := false
+	ast.Inspect(fi.Decl.Body, func(x ast.Node) bool {
+		switch n := x.(type) {
+		case *ast.BinaryExpr:
+			switch n.Op {
+			case token.LSS, token.GTR, token.LEQ, token.GEQ:
+				ast.Inspect(n, func(y ast.Node) bool {
+					if sel, ok := y.(*ast.SelectorExpr); ok && sel.Sel.Name == "Seq" {
+						found = true
+					}
+					return true
+				})
+			}
+		case *ast.CallExpr:
+			if sel, ok := n.Fun.(*ast.SelectorExpr); ok && (sel.Sel.Name == "Before" || sel.Sel.Name == "After") {
+				found = true
+			}
+		}
+		return true
+	})
+	return found
 }
